@@ -320,6 +320,25 @@ func (in *sysInst) launch(bin string, o sysConfOpts) (err error) {
 		}
 		st, _, e := in.API("GET", "/control/status", nil)
 		if e == nil && st == 200 {
+			// The routes of the DNS, filtering, DHCP, statistics and
+			// query-log modules are registered a moment after the status
+			// route answers; wait for them as well (bounded).
+			late := []string{"/control/filtering/status", "/control/dhcp/status", "/control/stats", "/control/querylog?limit=1", "/control/clients", "/control/dns_info"}
+			for w := 0; w < 400; w++ {
+				all := true
+				for _, p := range late {
+					if st2, _, e2 := in.API("GET", p, nil); e2 != nil || st2 == 404 {
+						all = false
+
+						break
+					}
+				}
+				if all || in.Exited() {
+					break
+				}
+				time.Sleep(25 * time.Millisecond)
+			}
+
 			return nil
 		}
 		time.Sleep(50 * time.Millisecond)
